@@ -55,6 +55,24 @@ theorem direct_submit_model :
 theorem default_limit : Gen.C16.defaultMaxBlobSize = Gen.C16.hookDefaultMaxBlobSize ∧ 0 < Gen.C16.defaultMaxBlobSize := by
   decide
 
+/-- **no deadline of the HTTP server covers the handler run.**  `net/http` arms `WriteTimeout` when the request
+header has been read (`conn.readRequest`: `c.rwc.SetWriteDeadline(time.Now().Add(d))`) and `ReadTimeout` when the
+request starts to be read; neither is "time spent writing/reading": both keep running while the handler - the DA call -
+executes.  The handler is not cancelled when such a deadline passes: the DA layer completes the call, stores the
+blobs and returns the ids, and only then the response write fails; the client sees `EOF` for a call that succeeded
+(in-process the caller simply waits and gets the ids), so the node submits accepted blobs again.  DA submissions
+legitimately take long (inclusion in a DA block; the node budgets 60 s, block/submitter.go), so for the proxied DA
+layer to behave like the in-process one both must be off (0 = none) and the handler must not be an
+`http.TimeoutHandler`.  `ReadHeaderTimeout` ends when the header has been read and `IdleTimeout` only runs between
+requests: neither covers a handler run; their values are pinned.  Read from the real `*http.Server` inside the value
+`proxy.NewServer` returns, on every run. -/
+theorem server_no_handler_deadline :
+    Gen.C16.serverWriteTimeout = 0 ∧ Gen.C16.serverReadTimeout = 0 ∧ Gen.C16.serverHandlerIsTimeoutHandler = false := by
+  decide
+
+/-- today's values of the deadlines that do not cover the handler: 2 s for the request header, no idle limit -/
+theorem server_other_timeouts : Gen.C16.serverReadHeaderTimeout = 2000000000 ∧ Gen.C16.serverIdleTimeout = 0 := by decide
+
 /-- `RetrieveWithHelpers` fetches in chunks of 100 ids and keeps every blob -/
 theorem chunking_250 : chunkSizes 250 = Gen.C16.getChunks250 ∧ (chunkSizes 250).sum = Gen.C16.retrieve250Blobs := by decide
 
